@@ -1720,6 +1720,34 @@ pub fn vh_mac(a: &Args) {
                 }
                 h += 1;
             }
+            // Window walk, fixed plans: data uplinks sent while a join bias is still in force (preferred sub-band
+            // with several retries, joined early, JoinAccept without CFList, no channel mask received yet) go out
+            // on the preferred sub-band at the join data rate whatever data rate is configured: RX1 follows the
+            // data rate of the transmission, not the configured one.
+            if a.get("profile") == Some("rxwin") && (region == "US915" || region == "AU915") {
+                let (fr, classc) = match front.as_str() {
+                    "nb" => ("nb", false),
+                    "async" => ("async", false),
+                    _ => ("async", true),
+                };
+                for (sb, retries, dr, dl) in [(2u8, 2usize, 3u8, 0x00u8), (7, 4, 2, 0x10), (1, 4, 3, 0x20), (8, 3, 1, 0x00)] {
+                    let appkey = [7u8; 16];
+                    let ja = Net::join_accept(&appkey, [1, 0, 0], [1, 2, 3], [1, 2, 3, 4], dl, 1, -1, &[]);
+                    let proc_ = |rx1: Vec<Frame>| Proc { tx: "done".into(), ts: 10, rx1, fault: -1, ..Default::default() };
+                    let mut ops = vec![
+                        Op::Reset { region: region.clone(), front: fr.into(), classc, board: 0, bias_sb: sb, bias_retries: retries,
+                                    lead: 10, buffer: 10, offset: 0, duration: 500, session: None },
+                        Op::JoinOtaa { appkey, deveui: [1, 2, 3, 4, 5, 6, 7, 8], appeui: [8, 7, 6, 5, 4, 3, 2, 1], draws: vec![],
+                                       plan: proc_(vec![Frame { bytes: ja, snr: 5, intent: format!("ja:bias:dl={dl:#04x}") }]) },
+                        Op::SetDr { dr },
+                    ];
+                    for i in 0..=retries {
+                        ops.push(Op::Send { port: 4, data: vec![i as u8], confirmed: false, draws: vec![], plan: proc_(vec![]) });
+                    }
+                    let _ = run_history(out.shard(h), &ops, 1, None);
+                    h += 1;
+                }
+            }
         }
     }
     println!("events={} histories={h}", out.finish());
